@@ -22,14 +22,16 @@ def conc(x, flt):
     return v if (flt or v != int(v)) else int(v)
 
 
-def observe(m, d, probes, flt):
+def observe(m, d, probes, flt, order=None):
     mapping = {(conc(s, flt), conc(e, flt)): 10 + i + 1 for i, (s, e) in enumerate(d)}
     try:
         im = m.ImmutIntervalMap(mapping)
     except KeyError:
         return {"valid": 0}
-    look = []
-    for p in probes:
+    look = {}
+    # the probes are asked on ONE map object in the given order (ascending, descending, shuffled, with repeats): an
+    # "immutable" map must answer each probe the same whatever was asked before
+    for p in (order or probes):
         k = conc(p, not flt)
         try:
             v = im[k]
@@ -38,7 +40,10 @@ def observe(m, d, probes, flt):
             v, inn = -1, k in im
         if inn != (v != -1):
             return {"exc": "'in' disagrees with lookup for key %r" % (k,)}
-        look.append(v)
+        if p in look and look[p] != v:
+            return {"exc": "the same key %r was answered %r and then %r" % (k, look[p], v)}
+        look[p] = v
+    look = [look[p] for p in probes]
     items = [[int(a * 2), int(b * 2), v] for (a, b), v in im]
     return {"valid": 1, "len": len(im), "items": items, "look": look}
 
@@ -56,9 +61,25 @@ def run(ctx):
     k = {"Ends": model.tla_set(ends), "MaxIntervals": 3 if not quick else 3, "MaxProbe": max(ends) + 1}
     n = [0]
 
+    import random as _random
+    ornd = _random.Random(ctx.seed * 7919 + 16)
+
     def one(d, exp):
         n[0] += 1
-        compare(ctx, "ImmutIntervalMap", d, exp, safe(lambda: observe(m, d, probes, n[0] % 2 == 0)))
+        kind = n[0] % 4
+        if kind == 0:
+            order = list(probes)
+        elif kind == 1:
+            order = list(reversed(probes))
+        else:
+            order = list(probes) + [ornd.choice(probes) for _ in range(len(probes))]
+            ornd.shuffle(order)
+        compare(ctx, "ImmutIntervalMap", d, exp, safe(lambda: observe(m, d, probes, n[0] % 2 == 0, order)))
+        if kind >= 2 and exp.get("valid"):
+            # hit / miss / hit patterns: a second object probed in another shuffled order
+            order2 = list(probes) * 2
+            ornd.shuffle(order2)
+            compare(ctx, "ImmutIntervalMap(order)", d, exp, safe(lambda: observe(m, d, probes, n[0] % 2 == 1, order2)))
     cases.enumerate_cases(SPEC, model.constants_block(k), ctx, "intervalmap", one, timeout=2400)
     ctx.exhaustive = True
     ctx.extra["bounds"] = k
